@@ -171,7 +171,7 @@ class Gen:
             m, kind = self.item(False, in_adjacent)
             return m
         self.budget -= 1
-        kinds = ["item", "and", "or", "optional", "many", "required", "subsection", "suffix", "custom", "skip", "adjacent", "strict"]
+        kinds = ["item", "and", "or", "optional", "many", "required", "subsection", "suffix", "custom", "skip", "adjacent", "strict", "dupor"]
         k = kinds[self.pick(len(kinds), "node")]
         if k == "item":
             self.budget += 1
@@ -195,6 +195,36 @@ class Gen:
             # `hide`: the parser's metadata is replaced by Skip; remember what is hidden
             m, kind = self.item(True)
             return Adt("Meta", mv("Skip"), ())
+        if k == "dupor":
+            # two *different* items with the same visible name and the same help text in two branches of a
+            # choice (`--name=MV | --name`, or `--name=MV0 | --name=MV1`): both must be listed; two identical
+            # items are listed once
+            self.budget += 1
+            kn = self.n
+            self.n += 1
+            has_help = self.pick(2, "help") == 1
+            help_ = (lambda: SOME(self.doc("help-%d" % kn))) if has_help else (lambda: NONE)
+            iv = lambda n: L.variant_index("Item", n)
+
+            def mk(vn, **kw):
+                fl = L.adts["Item"]["variants"][iv(vn)][1]
+                return Adt("Item", iv(vn), tuple(kw[f] for f in fl))
+            sl = Adt("ShortLong", L.variant_index("ShortLong", "Long"), ("name%d" % kn,))
+            variant = self.pick(3, "dup-kind")
+            first = mk("Argument", name=sl, shorts=Seq(()), metavar=Adt("Metavar", 0, ("MV%d" % kn,)), env=NONE, help=help_())
+            recs = [("arg", "--name%d" % kn, "MV%d" % kn, "help-%d" % kn if has_help else None, False)]
+            if variant == 0:
+                second = mk("Flag", name=sl, shorts=Seq(()), env=NONE, help=help_())
+                recs.append(("flag", "--name%d" % kn, None, "help-%d" % kn if has_help else None, False))
+            elif variant == 1:
+                second = mk("Argument", name=sl, shorts=Seq(()), metavar=Adt("Metavar", 0, ("OTHER%d" % kn,)), env=NONE, help=help_())
+                recs.append(("arg", "--name%d" % kn, "OTHER%d" % kn, "help-%d" % kn if has_help else None, False))
+            else:
+                second = mk("Argument", name=sl, shorts=Seq(()), metavar=Adt("Metavar", 0, ("MV%d" % kn,)), env=NONE, help=help_())
+                recs.append(recs[0])  # identical: de-duplicated
+            self.visible.extend(recs)
+            mi = lambda it: Adt("Meta", mv("Item"), (it,))
+            return Adt("Meta", mv("Or"), (Seq((mi(first), mi(second))),))
         if k == "strict":
             # `positional(..).strict()`: the positional's item wrapped in Meta::Strict
             self.budget += 1
@@ -268,21 +298,24 @@ def run_tree_job(job, build):
                 return ln.replace("=", " ").replace(",", " ").split()
             item_lines = [ln for ln in lines if ln.startswith("    ") and name in names_of(ln)[:3]]
             # the usage line of an adjacent group is written with the *short* name of an item that has both
-            alt = ("-" + chr(ord("a") + int(name[5:]))) if kind == "arg" else name
+            alt = ("-" + chr(ord("a") + int(name[5:]))) if name.startswith("--arg") else name
             header_lines = [ln for ln in lines if ln.startswith("  ") and not ln.startswith("    ") and (name in names_of(ln) or alt in names_of(ln))]
+            # distinct items sharing this name / this help text (identical items are listed once)
+            want = len(set(v for v in g.visible if v[1] == name))
+            want_h = len(set(v for v in g.visible if v[3] == hlp)) if hlp else 0
             if adj and not hlp:
                 # inside an adjacent group an undocumented member is shown in the group's usage line only
                 if len(item_lines) + len(header_lines) < 1:
                     bad.append("%s %s of an adjacent group is not mentioned at all" % (kind, name))
-                n = 1
+                n = want
             else:
                 n = len(item_lines)
-            if n != 1:
-                bad.append("%s %s is listed %d times" % (kind, name, n))
+            if n != want:
+                bad.append("%s %s is listed %d times, %d distinct item(s) carry that name" % (kind, name, n, want))
             if mv and text.count(mv) < 1:
                 bad.append("metavariable %s of %s is missing" % (mv, name))
-            if hlp and text.count(hlp) != 1:
-                bad.append("help text of %s appears %d times" % (name, text.count(hlp)))
+            if hlp and text.count(hlp) != want_h:
+                bad.append("help text of %s appears %d times, expected %d" % (name, text.count(hlp), want_h))
         for name in g.absent:
             lines = [ln for ln in text.split("\n") if ln.strip().startswith(name) or (" " + name) in ln.split("  ")[0]]
             # adjacent groups print their usage line as a header: that is usage, not an item listing
@@ -449,7 +482,7 @@ def run_order_job(job, build):
 
 def make_jobs(tier, seed, build):
     jobs = []
-    nshards = 12
+    nshards = 13
     for depth, budget in ((1, 1), (2, 2)) if tier == "quick" else ((1, 1), (2, 2), (2, 3)):
         for a in range(nshards):
             for b in range(nshards if depth > 1 else 1):
